@@ -36,7 +36,7 @@ func newUnit(sh *Shared, cs *ContractSet, fn *ssa.Function) *Unit {
 	u := &Unit{w: w, cs: cs, root: fn, rootKey: key, contract: cs.ByKey[key],
 		notes: map[string]int{}, trustedUsed: map[string]int{}, inlined: map[string]int{}, declared: map[string]bool{}, oblNames: map[string]int{},
 		logical: map[string]envEntry{}, features: map[string]bool{}, libAssumed: map[string]int{}, unknownCalls: map[string]int{},
-		contractsUsed: map[string]int{}, typeInvUsed: map[string]int{}, termOrigin: map[string]string{}, guardedTerm: map[string]guardedVal{}, epochAlloc: map[int]Term{}, closureTerms: map[string]*closureVal{}, pureFnTerms: map[string]string{}}
+		contractsUsed: map[string]int{}, typeInvUsed: map[string]int{}, termOrigin: map[string]string{}, guardedTerm: map[string]guardedVal{}, epochAlloc: map[int]Term{}, closureTerms: map[string]*closureVal{}, pureFnTerms: map[string]string{}, escapeMemo: map[*ssa.Alloc]bool{}, fnConsts: map[string]*ssa.Function{}}
 	if u.contract == nil {
 		if ic, alias := ifaceContractFor(sh, cs, fn); ic != nil {
 			// behavioural subtyping: the implementation is verified against the interface method's contract
